@@ -43,5 +43,6 @@ theorem limiterOpSwitch : Facts.limiterOpSwitch = Spec.limiterOpSwitch := by rfl
 theorem closeFinisherShape : Facts.closeFinisherShape = Spec.closeFinisherShape := by rfl
 theorem finishAndNotifyShape : Facts.finishAndNotifyShape = Spec.finishAndNotifyShape := by rfl
 theorem setAccessTimeShape : Facts.setAccessTimeShape = Spec.setAccessTimeShape := by rfl
+theorem getAccessCall : Facts.getAccessCall = Spec.getAccessCall := by rfl
 
 end Pins
